@@ -757,8 +757,9 @@ class DatasetBuilder:
         assert isinstance(val_array, pa.ListArray)
 
         if dictionary:
-            val_array = pa.ListArray.from_arrays(
-                val_array.offsets, pc.dictionary_encode(val_array.values)
+            # cast (rather than rebuild from offsets + values) so null lists stay null
+            val_array = val_array.cast(
+                pa.list_(pa.dictionary(pa.int32(), val_array.type.value_type))
             )
 
         nums = nums.to_numpy()
